@@ -1,6 +1,7 @@
 import BpModel.Proofs.Lexer
 import BpModel.Proofs.ExprFuel
 import BpModel.Proofs.FrontFuel
+import BpModel.Proofs.BridgeTables
 /-!
 # C09 — compilation is total: any input yields success or a parser error
 
@@ -62,6 +63,21 @@ theorem C09_eval_classified (env : String → Option Int) (text : String) :
 theorem C09_import_fuel (files : List Front.File) (trad : Bool) (main : String) (c : Front.Ctx) (line k : Nat) :
     Front.checkFile files trad (files.length + 1 + k) [] main c line = Front.checkFile files trad (files.length + 1) [] main c line :=
   Front.checkFile_fuel files trad main c line k
+
+/-- the translator tie: the model's escape table is `Lexer.escaping_chars` as lexer.py reads now -/
+theorem C09_escapes_tied (c : Char) :
+    Lexer.escTable c = (Gen.Tables.lexer_escapes.find? (·.1 == c)).map (·.2) := by
+  rw [Bridge.lexer_escapes_eq]
+  unfold Lexer.escTable
+  have b : ∀ x : Char, (x == c) = decide (c = x) := by
+    intro x
+    by_cases h : c = x
+    · simp [h]
+    · have : ¬ x = c := fun e => h e.symm
+      simp [h, this]
+  simp only [List.find?, b]
+  by_cases h1 : c = 't' <;> by_cases h2 : c = 'r' <;> by_cases h3 : c = 'n' <;> by_cases h4 : c = '\\' <;>
+    by_cases h5 : c = '\'' <;> by_cases h6 : c = '"' <;> simp_all
 
 /-! ### non-vacuity -/
 example : (Lexer.lexString "a\\n\\\"b\" rest".toList).map (fun p => (p.1.toOption, p.2)) = some (some "a\n\"b".toList, " rest".toList) := by decide
